@@ -1120,9 +1120,11 @@ def gen_server_case(rng, tag=None, frag=None):
     elif tag == 'bad_json':
         m = honest_request(h)
         p = rng.randrange(1, len(m) - 1)
-        chunks = fr(rng.choice([m[:p] + b'}' + m[p:], m.replace(b':', b';', 1), b'}', b'{]}', m + b'}', b'{"requested_blob": }',
-                                m[:-1] + b',}', b'\x00}', b'{"requested_blob": "' + h.encode() + b'"}x}']))
-        expect_closed = True
+        bad = rng.choice([m[:p] + b'}' + m[p:], m.replace(b':', b';', 1), b'}', b'{]}', m + b'}', b'{"requested_blob": }',
+                          m[:-1] + b',}', b'\x00}', b'{"requested_blob": "' + h.encode() + b'"}x}'])
+        chunks = fr(bad)
+        # a '}' dropped inside a string leaves legal JSON: only what python json rejects as a whole must close
+        expect_closed = oracle_req_loads(bad)[:1] in (b'B', b'X', b'E')
     elif tag == 'nonutf8':
         chunks = fr(rng.choice([b'{"requested_blob": "\xff"}', b'\xff\xfe}', b'{"\x80": 1}']))
         expect_closed = True
@@ -1699,7 +1701,7 @@ def main(run):
     model = vlib.Model('C10', oracles=ORACLES)
     rng = run.rng
     thorough = run.tier == 'thorough'
-    mult = 15 if thorough else 1
+    mult = 12 if thorough else 1
     run.rule = (
         'client sessions: 1-3 requests on one reused connection against a scripted peer; blobs of 8 kinds (random, '
         'response-shaped prefix = the F7 witness, all "}", header copy, ...) of 1..4096 bytes; the peer stream '
